@@ -530,9 +530,11 @@ class Pipeline:
         result_from_cache = False
         if use_cache:
             assert cache is not None
+            # NOTE: `func._bound` must not override the provided arguments here, a root
+            # argument that is bound in `func` can still be used unbound by functions upstream.
             cache_key = compute_cache_key(
                 func.output_name,
-                self._func_defaults(func) | flat_scope_kwargs | func._bound,
+                self._func_defaults(func) | flat_scope_kwargs,
                 root_args,
             )
             if any(k in self.output_to_func for k in flat_scope_kwargs):
